@@ -128,7 +128,13 @@ def gen_case(rng, big):
     if rng.random() < 0.03:     # boundary stream: degenerate scale
         scale = rng.choice([0.0, -1.0])
     rb, bmode = gen_bins(rng, nx, ny, float(scale))
+    rb_int = False
+    if rng.random() < 0.2 and len(rb) >= 2:
+        # whole-number bin edges handed over with an INTEGER type (np.arange / list of ints): same annuli, same values
+        rb = [float(k) for k in range(0, len(rb))]
+        rb_int = True
     return {
+        "rbins_int": rb_int,
         "disp": gen_values(rng, nx, ny, rng.choice(["disp", "disp", "any"]), p_bad),
         "wdisp": gen_weights(rng, nx, ny, p_bad / 2),
         "vel": vel,
@@ -202,6 +208,9 @@ def arr(m):
 
 
 def edges(c):
+    if c.get("rbins_int"):
+        ints = [int(x) for x in c["rbins"]]
+        return ints if c.get("rbins_as_list") else np.array(ints)
     return list(c["rbins"]) if c.get("rbins_as_list") else np.array(c["rbins"], dtype=float)
 
 
@@ -405,7 +414,7 @@ def encode(c):
             "wvel": fll(c["wvel"]), "flux": fll(c["flux"]),
             "scale": f2b(c["scale"]), "scale_is_int": isinstance(c["scale"], int),
             "rbins": fl(c["rbins"]), "cf": f2b(c["cf"]), "cw": f2b(c["cw"]), "u": f2b(c["u"]),
-            "swap_seed": c["swap_seed"], "rbins_as_list": bool(c["rbins_as_list"]),
+            "swap_seed": c["swap_seed"], "rbins_as_list": bool(c["rbins_as_list"]), "rbins_int": bool(c.get("rbins_int", False)),
             "meta": c["meta"]}
 
 
@@ -415,7 +424,7 @@ def decode(d):
             "wvel": unfll(d["wvel"]), "flux": unfll(d["flux"]),
             "scale": int(s) if d.get("scale_is_int") else s,
             "rbins": unfl(d["rbins"]), "cf": b2f(d["cf"]), "cw": b2f(d["cw"]), "u": b2f(d["u"]),
-            "swap_seed": d["swap_seed"], "rbins_as_list": d["rbins_as_list"], "meta": d["meta"]}
+            "swap_seed": d["swap_seed"], "rbins_as_list": d["rbins_as_list"], "rbins_int": d.get("rbins_int", False), "meta": d["meta"]}
 
 
 def driver_line(c):
